@@ -1067,7 +1067,19 @@ def check(ck):
             a0 = strip_cast(c.args[0]) if len(c.args) == 1 and not c.keywords else None
             if a0 is not None and isinstance(a0, ast.Call) and A.call_attr(a0) == "dict" and len(a0.args) == 1 and not a0.keywords:
                 a0 = a0.args[0]
-            if a0 is not None and isinstance(a0, ast.Call) and A.call_attr(a0) == "zip" and len(a0.args) == 2:
+            comp_ = a0 if isinstance(a0, ast.DictComp) and len(a0.generators) == 1 and not a0.generators[0].ifs else None
+            g_ = comp_.generators[0] if comp_ is not None else None
+            if g_ is not None and isinstance(g_.target, ast.Tuple) and len(g_.target.elts) == 2 and isinstance(strip_cast(g_.iter), ast.Call) \
+                    and [A.norm(x) for x in g_.target.elts] == [A.norm(comp_.key), A.norm(comp_.value)] and all(isinstance(x, ast.Name) for x in g_.target.elts):
+                # {name: value for name, value in zip(names, values)} / {k: v for k, v in mapping.items()}
+                it_ = strip_cast(g_.iter)
+                if A.call_attr(it_) == "zip" and len(it_.args) == 2:
+                    pos_bind.append((it_.args[0], it_.args[1], at, s))
+                elif A.call_attr(it_) == "items" and not it_.args and A.call_recv(it_) is not None:
+                    kw_merge.append((A.call_recv(it_), at, s))
+                else:
+                    odd.append((A.norm(c), ""))
+            elif a0 is not None and isinstance(a0, ast.Call) and A.call_attr(a0) == "zip" and len(a0.args) == 2:
                 pos_bind.append((a0.args[0], a0.args[1], at, s))
             elif a0 is not None:
                 kw_merge.append((a0, at, s))
@@ -1108,14 +1120,33 @@ def check(ck):
         while isinstance(comp, ast.Call) and isinstance(comp.func, ast.Name) and comp.func.id in ("list", "tuple") and len(comp.args) == 1 and not comp.keywords:
             comp = strip_cast(comp.args[0])
 
+        snap_nodes = []   # where the set of names bound so far is taken, when that is not the test itself
+
         def unbound_test(test, tv, at_):
             e, pol = lit_expr(A.norm(test), True)
             if not (isinstance(e, ast.Compare) and len(e.ops) == 1 and isinstance(e.ops[0], ast.In) and not pol and A.norm(e.left) == tv):
                 return False
-            r = e.comparators[0]
-            if isinstance(r, ast.Call) and A.call_attr(r) == "keys" and not r.args:
-                r = A.call_recv(r)
-            return _ref_name(r) is not None and is_ek(r, at_)
+
+            def keys_of(r):
+                # the mapping whose keys `r` is: m / m.keys() / set(m) / frozenset(m.keys()) / list(m) ...
+                r = strip_cast(r)
+                if isinstance(r, ast.Call) and A.call_attr(r) == "keys" and not r.args and A.call_recv(r) is not None:
+                    return keys_of(A.call_recv(r))
+                if isinstance(r, ast.Call) and isinstance(r.func, ast.Name) and r.func.id in ("set", "frozenset", "list", "tuple") and len(r.args) == 1 and not r.keywords:
+                    return keys_of(r.args[0])
+                return r
+
+            r = keys_of(e.comparators[0])
+            if _ref_name(r) is not None and is_ek(r, at_):
+                return True
+            # a snapshot of the bound names taken earlier (`bound = set(result)`)
+            d_ = single_def(bfa, _ref_name(r), at_) if _ref_name(r) is not None else None
+            if d_ is not None:
+                r2 = keys_of(d_.value)
+                if r2 is not strip_cast(d_.value) and _ref_name(r2) is not None and is_ek(r2, d_.node):
+                    snap_nodes.append(d_.node)
+                    return True
+            return False
 
         part_nodes = [at_ for (N_, S_, at_, s_) in pos_bind if s_ is not s_args]
         if isinstance(comp, (ast.ListComp, ast.GeneratorExp)) and len(comp.generators) == 1 and isinstance(comp.generators[0].target, ast.Name):
@@ -1135,7 +1166,7 @@ def check(ck):
                     and ftext(bfa, loop.iter, bfa.nodes(st)[0]) == REF + ".parameter_names" and unbound_test(gi.test, tv, bfa.nodes(st)[0])
                 cat = bfa.nodes(st)[0]
         # taken after the partial arguments are bound
-        ok3 = ok3 and not any(pn in bfa.cfg.reach([cat], include_start=False) for pn in part_nodes if pn != cat)
+        ok3 = ok3 and not any(pn in bfa.cfg.reach([c_], include_start=False) for c_ in [cat] + snap_nodes for pn in part_nodes if pn != c_)
     ck.ob(R3, CE_Q + "::remaining-names", ok3, "positional args fill the parameters not yet bound, in order" if ok3 else
           "remaining parameter names are not [name for name in parameter_names if name not in result]", where_ce)
     ok4 = len(kw_merge) == 1 and ftext(bfa, kw_merge[0][0], kw_merge[0][1]) == ftext(bfa, self_kwargs, kw_merge[0][1])
